@@ -988,3 +988,51 @@ Proof.
   { destruct ok; [|exact R]. destruct fin; try discriminate Hfin. simpl. apply commit_ro. exact R. }
   destruct (release_ro s0 _ ord R2) as [_ [_ [He Ht]]]. split; assumption.
 Qed.
+
+(* ---- the decidable checker evaluated on the directories the harness finds ------------------------------------- *)
+Lemma lookup_In : forall s p c, lookup s p = Some c -> In (p, c) s.
+Proof.
+  induction s as [|[q d] s IH]; intros p c H; simpl in H; [discriminate|].
+  destruct (path_eqb q p) eqn:E.
+  - apply path_eqb_eq in E. inversion H; subst. left. reflexivity.
+  - right. apply IH. exact H.
+Qed.
+
+Lemma In_lookup : forall s p c, NoDup (map fst s) -> In (p, c) s -> lookup s p = Some c.
+Proof.
+  induction s as [|[q d] s IH]; intros p c Hnd Hin; [contradiction|].
+  simpl in Hnd. inversion Hnd as [|x l Hn Hd]; subst. simpl. destruct Hin as [Hin|Hin].
+  - inversion Hin; subst. rewrite path_eqb_refl. reflexivity.
+  - destruct (path_eqb q p) eqn:E; [|apply IH; assumption].
+    apply path_eqb_eq in E. subst q. exfalso. apply Hn. change p with (fst (p, c)). apply in_map. exact Hin.
+Qed.
+
+Lemma option_content_eqb_eq : forall a b, option_eqb content_eqb a b = true <-> a = b.
+Proof.
+  intros [a|] [b|]; simpl; split; intros H; try discriminate; try reflexivity.
+  - apply content_eqb_eq in H. subst. reflexivity.
+  - inversion H. apply content_eqb_eq. reflexivity.
+Qed.
+
+Lemma no_leftovers_sound : forall s0 s, no_leftovers s0 s = true ->
+  forall p, is_control p = true -> lookup s p = lookup s0 p.
+Proof.
+  intros s0 s H p Hp. unfold no_leftovers in H. apply andb_true_iff in H. destruct H as [H1 H2].
+  rewrite forallb_forall in H1, H2. unfold is_control in Hp. apply negb_true_iff in Hp.
+  destruct (lookup s p) as [c|] eqn:E.
+  - specialize (H1 _ (lookup_In s p c E)). simpl in H1. rewrite Hp in H1. simpl in H1.
+    apply option_content_eqb_eq in H1. congruence.
+  - destruct (lookup s0 p) as [c0|] eqn:E0; [|reflexivity].
+    specialize (H2 _ (lookup_In s0 p c0 E0)). simpl in H2. rewrite Hp in H2. simpl in H2.
+    unfold exists_b in H2. rewrite E in H2. discriminate.
+Qed.
+
+Lemma no_leftovers_complete : forall s0 s, NoDup (map fst s0) -> NoDup (map fst s) ->
+  (forall p, is_control p = true -> lookup s p = lookup s0 p) -> no_leftovers s0 s = true.
+Proof.
+  intros s0 s N0 N H. unfold no_leftovers. apply andb_true_iff. split; apply forallb_forall; intros [p c] Hin; simpl.
+  - destruct (is_data p) eqn:Ed; [reflexivity|]. simpl. apply option_content_eqb_eq.
+    rewrite <- (H p) by (unfold is_control; rewrite Ed; reflexivity). apply In_lookup; assumption.
+  - destruct (is_data p) eqn:Ed; [reflexivity|]. simpl. unfold exists_b.
+    rewrite (H p) by (unfold is_control; rewrite Ed; reflexivity). rewrite (In_lookup s0 p c N0 Hin). reflexivity.
+Qed.
